@@ -6,10 +6,11 @@
 #include "dump.h"
 #include <limits.h>
 #include <sys/wait.h>
+#include <pthread.h>
 
-enum { K_KEY, K_VALUE, K_CONT, K_SECTION, K_CBEFORE, K_CAFTER, K_DROPNAME, K_PATH, K_OPTION, K_TOOLARG, K_N };
+enum { K_KEY, K_VALUE, K_CONT, K_SECTION, K_CBEFORE, K_CAFTER, K_DROPNAME, K_PATH, K_OPTION, K_TOOLARG, K_MANY, K_N };
 static const char *KN[K_N] = { "key", "value", "continuation line", "section name", "comment before", "comment after", "drop-in file name",
-                               "path length", "option string", "econftool --delimiters" };
+                               "path length", "option string", "econftool --delimiters", "16 entries, each with value, comment before and comment after of this length" };
 static const size_t LEN[] = { 1, 8190, 8191, 8192, 8193, 8194, 16384, 65536, 1048576 };
 static const size_t PLEN[] = { 4000, 4090, 4094, 4095, 4096, 4097, 4098, 4200 };
 static const size_t NLEN[] = { 100, 254, 255 };
@@ -21,6 +22,7 @@ static void gen(void)
   kind = mc_choose(K_N);
   if (kind == K_DROPNAME) li = mc_choose(3);
   else if (kind == K_PATH) li = mc_choose(8);
+  else if (kind == K_MANY) li = 7;                    /* 64 KiB per field, 3 MiB in the file */
   else if (kind == K_TOOLARG) li = mc_choose(8);      /* one argv string is limited to 128 KiB by the kernel */
   else li = mc_choose(with_1m ? 9 : 8);
 }
@@ -288,6 +290,53 @@ static void option_case(const char *sig)
   mc_st->libcalls += 5;
 }
 
+/* many long fields in one object: whatever the library needs per field must be given back before the next one (the calls run
+ * on a thread with a 512 KiB stack, see exec) */
+#define MANY 16
+static void many_case(const char *sig)
+{
+  size_t L = LEN[li];
+  char *v[MANY], *cb[MANY], *ca[MANY];
+  sbuf f = {0};
+  for (int i = 0; i < MANY; i++) {
+    v[i] = pattern(L, (unsigned)(3 * i)); cb[i] = pattern(L, (unsigned)(3 * i + 1)); ca[i] = pattern(L, (unsigned)(3 * i + 2));
+    sb_printf(&f, "#%s\nk%d=%s #%s\n", cb[i], i, v[i], ca[i]);
+  }
+  char path[500]; snprintf(path, sizeof path, "%s/many.conf", mc_work);
+  mc_write_file(path, f.s, f.len);
+  econf_file *kf = NULL, *back = NULL, *m = NULL, *partner = NULL;
+  econf_err rc = econf_readFile(&kf, path, "=", "#");
+  if (rc || !kf) { mc_fail(sig, "econf_readFile failed: %d; %s", (int)rc, sig); goto out; }
+  rc = econf_writeFile(kf, mc_work, "many.out");
+  if (rc) { mc_fail(sig, "econf_writeFile failed: %d; %s", (int)rc, sig); goto out; }
+  snprintf(path, sizeof path, "%s/many.out", mc_work);
+  rc = econf_readFile(&back, path, "=", "#");
+  if (rc || !back) { mc_fail(sig, "written file cannot be read back: %d; %s", (int)rc, sig); goto out; }
+  econf_newKeyFile(&partner, '=', '#'); econf_setStringValue(partner, NULL, "p", "short");
+  rc = econf_mergeFiles(&m, partner, kf);
+  if (rc || !m) { mc_fail(sig, "econf_mergeFiles failed: %d; %s", (int)rc, sig); goto out; }
+  econf_file *objs[3] = { kf, back, m }; const char *on[3] = { "read", "write + re-read", "merge result" };
+  for (int o = 0; o < 3 && !mc_case_failed; o++) for (int i = 0; i < MANY && !mc_case_failed; i++) {
+    char k[8], what[120]; snprintf(k, sizeof k, "k%d", i);
+    econf_ext_value *ev = NULL;
+    rc = econf_getExtValue(objs[o], NULL, k, &ev);
+    snprintf(what, sizeof what, "%s: entry %d", on[o], i);
+    if (rc || !ev || !ev->values || !ev->values[0]) { mc_fail(sig, "%s: econf_getExtValue rc=%d; %s", what, (int)rc, sig); if (ev) econf_freeExtValue(ev); break; }
+    expect_str(what, ev->values[0], v[i], sig);
+    expect_str(what, ev->comment_before_key, cb[i], sig);
+    expect_str(what, ev->comment_after_value, ca[i], sig);
+    econf_freeExtValue(ev);
+  }
+  mc_st->libcalls += 5 + 3 * MANY;
+out:
+  if (kf) econf_freeFile(kf);
+  if (back) econf_freeFile(back);
+  if (m) econf_freeFile(m);
+  if (partner) econf_freeFile(partner);
+  for (int i = 0; i < MANY; i++) { free(v[i]); free(cb[i]); free(ca[i]); }
+  sb_free(&f);
+}
+
 static void toolarg_case(const char *sig)
 {
   size_t L = LEN[li];
@@ -317,18 +366,35 @@ static void toolarg_case(const char *sig)
   mc_st->libcalls++;
 }
 
-static void exec(void)
+static char exec_sig[200];
+static void *exec_on_small_stack(void *arg)
 {
-  char sig[200];
-  size_t L = kind == K_DROPNAME ? NLEN[li] : kind == K_PATH ? PLEN[li] : LEN[li];
-  snprintf(sig, sizeof sig, "field=%s length=%zu", KN[kind], L);
-  snprintf(mc_case_sig, sizeof mc_case_sig, "%s", sig);
-  mc_log("%s\n", sig);
+  (void)arg;
+  const char *sig = exec_sig;
   if (kind <= K_CAFTER) text_field_case(sig);
   else if (kind == K_DROPNAME) dropname_case(sig);
   else if (kind == K_PATH) path_case(sig);
   else if (kind == K_OPTION) option_case(sig);
-  else toolarg_case(sig);
+  else if (kind == K_MANY) many_case(sig);
+  return NULL;
+}
+
+static void exec(void)
+{
+  char *sig = exec_sig;
+  size_t L = kind == K_DROPNAME ? NLEN[li] : kind == K_PATH ? PLEN[li] : LEN[li];
+  snprintf(sig, sizeof exec_sig, "field=%s length=%zu", KN[kind], L);
+  snprintf(mc_case_sig, sizeof mc_case_sig, "%s", sig);
+  mc_log("%s\n", sig);
+  if (kind == K_TOOLARG) toolarg_case(sig);
+  else {
+    /* the library calls run on a thread with a 512 KiB stack: stack use that grows with the length of a field (alloca, variable
+     * length arrays) is a length limit too and shows as a stack overflow here instead of only beyond the 8 MiB default */
+    pthread_t th; pthread_attr_t at;
+    pthread_attr_init(&at); pthread_attr_setstacksize(&at, 512 * 1024);
+    if (pthread_create(&th, &at, exec_on_small_stack, NULL) != 0) mc_die("pthread_create");
+    pthread_join(th, NULL); pthread_attr_destroy(&at);
+  }
   mc_st->compared++;
   if (L > 1) mc_st->nontrivial++;
   mc_outcome(((uint64_t)kind << 32) | L);
